@@ -188,3 +188,139 @@ def expected_trace(plan, cfg, replies=None):
                 out.append(f'  REC USER {p["name"]}.in.{e["name"]}({ins}) ctx=C')
                 out.append(f'  RET {ret} OUTS {outs} QUEUED 0')
     return out
+
+
+# ---------------------------------------------------------------- C10: one event left unbound
+
+def fc_driver(plan, cfg, shell_header):
+    """driver: argv[1] = 'user' | 'enc' | 'none', argv[2] = index of the single handler left unbound. Prints OK / EXC and, for a
+    multi-client port, whether a client can still be registered after final construction."""
+    shell_name = shell_header[:-3]
+    q = shell_qname(plan, shell_name)
+    sf = '::' + '::'.join((cfg.get('sf_prefix') or []) + ['Dzn'])
+    mc = cfg['ports'].get('mc')
+    create = cfg.get('fac', 'create') == 'create'
+    L = [f'#include "{shell_header}"', '#include <iostream>', '#include <cstring>', '#include <cstdlib>', 'int main(int argc, char** argv)', '{',
+         '    if (argc > 2 && !std::strcmp(argv[1], "enc")) verif::skip_enc() = std::atoi(argv[2]);',
+         '    if (argc > 2 && !std::strcmp(argv[1], "user")) verif::skip_user() = std::atoi(argv[2]);',
+         '    dzn::locator loc; dzn::pump pump; dzn::runtime rt; dzn::meta parent; parent.name = "parent";']
+    if not create:
+        L.append('    loc.set(pump).set(rt);')
+    if mc:
+        L.append(f'    {sf}::ILog log;')
+    L.append(f'    {q} shell(loc{", log" if mc else ""}, "inst");')
+    L.append(f'    auto* enc = static_cast<{enc_qname(plan)}*>(verif::the_component());')
+    k = 0
+    index = []
+    mcport = None
+    for p in plan['ports']:
+        if not p['exposed']:
+            continue
+        pre = 'Requires' if p['requires'] else 'Provides'
+        if p['exposed']['mc']:
+            mcport = p
+            for cid in ('A', 'B'):
+                L.append(f'    auto& {p["name"]}_{cid} = shell.{pre}MultiClient{cap(p["name"])}("{cid}").port;')
+                for e in p['itf']['events']:
+                    if e['out']:
+                        L.append(f'    if (verif::skip_user() != {k}) {p["name"]}_{cid}.out.{e["name"]} = {MM.handler(p["name"] + "@" + cid, e, "USER")};')
+                        index.append((k, f'{p["name"]}@{cid}.out.{e["name"]}'))
+                        k += 1
+        else:
+            L.append(f'    auto& {p["name"]}_u = shell.{pre}{cap(p["name"])}().port;')
+            for e in p['itf']['events']:
+                if (not p['requires'] and e['out']) or (p['requires'] and not e['out']):
+                    lbl = 'out' if e['out'] else 'in'
+                    L.append(f'    if (verif::skip_user() != {k}) {p["name"]}_u.{lbl}.{e["name"]} = {MM.handler(p["name"], e, "USER")};')
+                    index.append((k, f'{p["name"]}.{lbl}.{e["name"]}'))
+                    k += 1
+    L.append('    try { shell.FinalConstruct(&parent); std::cout << "OK parent=" << (enc->dzn_meta.parent ? enc->dzn_meta.parent->name : "null") << "\\n"; }')
+    L.append('    catch (const std::exception& e) { std::cout << "EXC " << e.what() << "\\n"; return 0; }')
+    if mcport:
+        pre = 'Provides'
+        L.append(f'    try {{ (void)shell.{pre}MultiClient{cap(mcport["name"])}("LATE"); std::cout << "LATE-REGISTRATION-ACCEPTED\\n"; }} catch (const std::exception& e) {{ std::cout << "LATE-REGISTRATION-REFUSED\\n"; }}')
+        L.append(f'    try {{ (void)shell.{pre}MultiClient{cap(mcport["name"])}("A"); std::cout << "KNOWN-CLIENT-OK\\n"; }} catch (const std::exception& e) {{ std::cout << "KNOWN-CLIENT-REFUSED\\n"; }}')
+    L.append('    return 0;')
+    L.append('}')
+    return '\n'.join(L) + '\n', index
+
+
+# ---------------------------------------------------------------- C09: facilities
+
+def facilities_driver(plan, cfg, shell_header):
+    """driver: argv[1] = bitmask: 1 pump present in the user's locator, 2 runtime present, 4 an extra service present.
+    Prints what the component received and what the shell uses."""
+    shell_name = shell_header[:-3]
+    q = shell_qname(plan, shell_name)
+    sf = '::' + '::'.join((cfg.get('sf_prefix') or []) + ['Dzn'])
+    mc = cfg['ports'].get('mc')
+    create = cfg.get('fac', 'create') == 'create'
+    L = [f'#include "{shell_header}"', '#include <iostream>', '#include <cstdlib>', '#include <type_traits>',
+         'struct Extra { int v = 42; };',
+         'template <typename T, typename = void> struct has_locator : std::false_type {};',
+         'template <typename T> struct has_locator<T, std::void_t<decltype(std::declval<T&>().Locator())>> : std::true_type {};',
+         'int main(int argc, char** argv)', '{', '    int mask = argc > 1 ? std::atoi(argv[1]) : 0;',
+         '    dzn::locator loc; dzn::pump pump; dzn::runtime rt; Extra extra;',
+         '    if (mask & 1) loc.set(pump); if (mask & 2) loc.set(rt); if (mask & 4) loc.set(extra);',
+         '    const size_t before = loc.services.size();']
+    if mc:
+        L.append(f'    {sf}::ILog log;')
+    L.append(f'    std::cout << "ACCESSOR " << (has_locator<{q}>::value ? "yes" : "no") << "\\n";')
+    L.append('    try {')
+    L.append(f'        {q} shell(loc{", log" if mc else ""}, "inst");')
+    L.append(f'        auto* enc = static_cast<{enc_qname(plan)}*>(verif::the_component());')
+    L.append('        const dzn::locator& cl = enc->dzn_locator;')
+    L.append('        std::cout << "CONSTRUCTED\\n";')
+    L.append('        std::cout << "COMP-LOCATOR-IS-USERS " << (&cl == &loc ? "yes" : "no") << "\\n";')
+    L.append('        std::cout << "COMP-PUMP " << (cl.try_get<dzn::pump>() == nullptr ? "none" : (cl.try_get<dzn::pump>() == &pump ? "users" : "own")) << "\\n";')
+    L.append('        std::cout << "COMP-RUNTIME " << (cl.try_get<dzn::runtime>() == nullptr ? "none" : (cl.try_get<dzn::runtime>() == &rt ? "users" : "own")) << "\\n";')
+    L.append('        std::cout << "COMP-EXTRA " << (cl.try_get<Extra>() == &extra ? "users" : (cl.try_get<Extra>() ? "other" : "none")) << "\\n";')
+    L.append('        std::cout << "COMP-SERVICES " << cl.services.size() << "\\n";')
+    if create:
+        L.append('        std::cout << "ACCESSOR-IS-COMP-LOCATOR " << (&shell.Locator() == &cl ? "yes" : "no") << "\\n";')
+    # which pump do multi-threaded events go through?
+    probe = None
+    for p in plan['ports']:
+        if p['exposed'] and p['exposed']['mts'] and not p['exposed']['mc']:
+            for e in p['itf']['events']:
+                if (not p['requires'] and not e['out']) or (p['requires'] and e['out']):
+                    probe = (p, e)
+                    break
+        if probe:
+            break
+    if probe:
+        p, e = probe
+        pre = 'Requires' if p['requires'] else 'Provides'
+        lbl = 'out' if e['out'] else 'in'
+        L.append(f'        {{ auto& prt = shell.{pre}{cap(p["name"])}().port; {arg_decls(e, 1)} prt.{lbl}.{e["name"]}({arg_list(e)}); }}')
+        L.append('        std::cout << "USES-USERS-PUMP " << ((pump.posted + pump.shell_calls) > 0 ? "yes" : "no") << "\\n";')
+    else:
+        L.append('        std::cout << "USES-USERS-PUMP na\\n";')
+    L.append('    } catch (const std::exception& e) { std::cout << "THROWS " << e.what() << "\\n"; }')
+    L.append('    std::cout << "USER-LOCATOR-UNCHANGED " << (loc.services.size() == before ? "yes" : "no") << "\\n";')
+    L.append('    return 0;')
+    L.append('}')
+    return '\n'.join(L) + '\n'
+
+
+def facilities_expected(plan, cfg, mask):
+    create = cfg.get('fac', 'create') == 'create'
+    has_mts = any(p['exposed'] and p['exposed']['mts'] and not p['exposed']['mc'] and any(((not p['requires'] and not e['out']) or (p['requires'] and e['out'])) for e in p['itf']['events']) for p in plan['ports'])
+    pump, rt, extra = bool(mask & 1), bool(mask & 2), bool(mask & 4)
+    out = ['ACCESSOR ' + ('yes' if create else 'no')]
+    if create:
+        if pump or rt:
+            out.append('THROWS')
+        else:
+            out += ['CONSTRUCTED', 'COMP-LOCATOR-IS-USERS no', 'COMP-PUMP own', 'COMP-RUNTIME own',
+                    'COMP-EXTRA ' + ('users' if extra else 'none'), f'COMP-SERVICES {2 + (1 if extra else 0)}', 'ACCESSOR-IS-COMP-LOCATOR yes',
+                    'USES-USERS-PUMP ' + ('na' if not has_mts else 'no')]
+    else:
+        if not (pump and rt):
+            out.append('THROWS')
+        else:
+            out += ['CONSTRUCTED', 'COMP-LOCATOR-IS-USERS yes', 'COMP-PUMP users', 'COMP-RUNTIME users',
+                    'COMP-EXTRA ' + ('users' if extra else 'none'), f'COMP-SERVICES {2 + (1 if extra else 0)}',
+                    'USES-USERS-PUMP ' + ('na' if not has_mts else 'yes')]
+    out.append('USER-LOCATOR-UNCHANGED yes')
+    return out
